@@ -777,7 +777,13 @@ func (self PathNode) marshal(p *thrift.BinaryProtocol, opts *Options) error {
 func guardPathNodeSlice(con *[]PathNode, l int) {
 	c := cap(*con)
 	if l >= c {
-		tmp := make([]PathNode, len(*con), l+DefaultNodeSliceCap)
+		// grow geometrically: with a constant increment, loading n children
+		// allocates and copies O(n^2) bytes in total
+		nc := l + DefaultNodeSliceCap
+		if nc < 2*c {
+			nc = 2 * c
+		}
+		tmp := make([]PathNode, len(*con), nc)
 		copy(tmp, *con)
 		*con = tmp
 	}
